@@ -33,7 +33,7 @@ ASSUMPTIONS = [
 ]
 CASES = {"quick": 3000, "thorough": 60000}
 MIN_CASES = {"quick": 800, "thorough": 15000}
-PRODUCERS = ["die", "allocation", "netgen", "floorset", "rect_get_netlist", "rect_solution", "legaliser"]
+PRODUCERS = ["die", "allocation", "netgen", "floorset", "rect_get_netlist", "rect_solution", "legaliser", "netlist_writer"]
 REQUIRED_CLASSES = PRODUCERS
 REQUIRED_COUNTERS = ["reread_compared:" + p for p in PRODUCERS] + ["twice_compared:" + p for p in PRODUCERS] + ["source_unchanged_checked:" + p for p in PRODUCERS]
 SOFT_DEADLINE = {"quick": 240, "thorough": 3300}
@@ -84,6 +84,8 @@ def generate(rng, tier, i):
                 "seed": rng.randrange(1000), "die": rng.choice(["10x10", "5.5x3", "100x40"]), "via_main": rng.random() < 0.5}
     if prod == "floorset":
         return gen_floorset(rng)
+    if prod == "netlist_writer":
+        return {"cls": prod, "doc": gn.gen_netlist_doc(rng, max_modules=6, max_nets=5), "file": rng.random() < 0.3}
     if prod == "rect_get_netlist":
         a = au.gen_alloc(rng, max_cells=16, allow_fixed=False)
         a["form"] = "tree"
@@ -599,6 +601,35 @@ def check_legaliser(case, ctx):
         c09.cleanup(m)
 
 
+def check_netlist_writer(case, ctx):
+    """the document every placement stage finally emits (spectral, force, legaliser, ... end with netlist.write_yaml)"""
+    p = "netlist_writer"
+    ok, n1 = ctx.call(nu.load, case["doc"])
+    if not ok:
+        return ctx.violation("netlist_writer:setup", f"{type(n1).__name__}: {str(n1)[:200]} :: {case['doc']}")
+    ctx.nontrivial(n1.num_modules >= 2)
+    before = nu.summary(n1)
+    ok, t1 = ctx.call(n1.write_yaml)
+    ok2, t2 = ctx.call(n1.write_yaml)
+    if not (ok and ok2):
+        return ctx.violation("netlist_writer:write_raised", f"{t1!r} {t2!r}")
+    ctx.count("twice_compared:" + p)
+    if t1 != t2:
+        ctx.violation("netlist_writer:second_write_differs", "two writes differ")
+    ctx.count("source_unchanged_checked:" + p)
+    if nu.summary(n1) != before:
+        ctx.violation("netlist_writer:writer_altered_object", "the netlist was altered by writing it")
+    src, via, path = t1, "tree", None
+    if case["file"]:
+        src, via = t1, "file"
+    ok, n2 = ctx.call(nu.load, src, via)
+    if not ok:
+        return ctx.violation("netlist_writer:reader_rejects", f"{type(n2).__name__}: {str(n2)[:200]} :: document=\n{t1[:500]}")
+    ctx.count("reread_compared:" + p)
+    for dmsg in nu.diff_summaries(before, nu.summary(n2))[:3]:
+        ctx.violation("netlist_writer:reread_differs", f"{dmsg} :: doc={case['doc']}")
+
+
 def check(case, ctx):
-    {"die": check_die, "allocation": check_allocation, "netgen": check_netgen, "floorset": check_floorset, "rect_get_netlist": check_rect_get_netlist,
+    {"netlist_writer": check_netlist_writer, "die": check_die, "allocation": check_allocation, "netgen": check_netgen, "floorset": check_floorset, "rect_get_netlist": check_rect_get_netlist,
      "rect_solution": check_rect_solution, "legaliser": check_legaliser}[case["cls"]](case, ctx)
